@@ -188,6 +188,9 @@ func (l *Loader) loadParsed(path string, file parsedFile, visited map[string]boo
 		errors = append(errors, subErrors...)
 	}
 
+	// path is no longer being included; it stays in visited (as false) so that it is loaded only once.
+	visited[path] = false
+
 	return result, errors
 }
 
@@ -200,13 +203,16 @@ func (l *Loader) loadSingleInclude(
 	var errors []LoadError
 	limits := l.getLimits()
 
-	if visited[includePath] {
-		errors = append(errors, LoadError{
-			Kind:    ErrorCycleDetected,
-			Path:    includePath,
-			Message: fmt.Sprintf("cycle detected: %s includes %s", basePath, includePath),
-			Range:   incRange,
-		})
+	if including, seen := visited[includePath]; seen {
+		if including {
+			errors = append(errors, LoadError{
+				Kind:    ErrorCycleDetected,
+				Path:    includePath,
+				Message: fmt.Sprintf("cycle detected: %s includes %s", basePath, includePath),
+				Range:   incRange,
+			})
+		}
+		// Otherwise the file was already loaded through another include: not a cycle, and it is loaded once.
 		return errors
 	}
 
